@@ -582,6 +582,23 @@ pub fn kem_leading_zeros<B: Backend>(opts: &Opts, rep: &mut Report, prop: &str) 
                         Ok(Ok(k)) if k == key => {}
                         other => rep.violation(&format!("{prop}|{}|seal|unseal-fails:rsa-kem-leading-zeros", B::NAME), d(&format!("own output not unsealed: {:?}", other.map(|r| r.map(|k| hx_short(&k)).map_err(|e| err_kind(&e)))), &blob)),
                     }
+                    // the same blob with leading zero bytes of the RSA-KEM ciphertext stripped (a shorter blob that a
+                    // lenient decoder pads back): not the blob that was sealed, must be refused
+                    if body.len() == 592 {
+                        for strip in 1..=zeros {
+                            let short = [&body[..80], &body[80 + strip..]].concat();
+                            let t = join_paserk("k1.seal.", &short);
+                            if matches!(guard(|| pke_unseal(&t, &psk)), Ok(Ok(_))) {
+                                rep.violation(&format!("{prop}|{}|seal|accepted:rsa-kem-leading-zeros-stripped", B::NAME), d(&format!("a {}-byte blob (ciphertext without its {strip} leading zero byte(s)) unseals", short.len()), &t));
+                            }
+                            let padded = [&body[..80], &vec![0u8; strip][..], &body[80..]].concat();
+                            let t = join_paserk("k1.seal.", &padded);
+                            if matches!(guard(|| pke_unseal(&t, &psk)), Ok(Ok(_))) {
+                                rep.violation(&format!("{prop}|{}|seal|accepted:rsa-kem-extra-leading-zeros", B::NAME), d("a blob with extra zero bytes in front of the ciphertext unseals", &t));
+                            }
+                            rep.case(&format!("{}.seal.rsa-kem-zeros-stripped", B::NAME), fnv_parts(&[&short, &[strip as u8]]), true);
+                        }
+                    }
                     if crate::refimpl::pke_unseal::<crate::prims::Rc>(1, der, &body).map(|k| k.to_vec()) != Some(key.to_vec()) {
                         rep.violation(&format!("{prop}|{}|seal|reference-cannot-unseal:rsa-kem-leading-zeros", B::NAME), d("the reference could not unseal the blob", &blob));
                     }
